@@ -42,6 +42,34 @@ theorem absolute_spelling_agrees (cwd rel : List Seg) :
     canonicalTarget cwd ⟨true, cwd ++ rel⟩ = canonicalTarget cwd ⟨false, rel⟩ := by
   simp [canonicalTarget, clean_append, stripPrefix_append]
 
+/-- with one spelling of the working directory the extended function is the old one -/
+theorem canonicalTargetL_single (cwd : List Seg) (t : Target) :
+    canonicalTargetL [cwd] t = canonicalTarget cwd t := by
+  unfold canonicalTargetL canonicalTarget stripAny
+  split
+  · cases stripPrefix (clean cwd) (clean t.segs) <;> simp [stripAny]
+  · rfl
+
+/-- **the shell's spelling of a symlinked working directory**: an absolute target below the
+    logical working directory is reduced to the same project-relative target as the relative
+    spelling, whenever the physical spelling is not itself a prefix of it -/
+theorem logical_spelling_agrees (phys logical rel : List Seg)
+    (hnot : stripPrefix (clean phys) (clean (logical ++ rel)) = none) :
+    canonicalTargetL [phys, logical] ⟨true, logical ++ rel⟩ =
+      canonicalTargetL [phys, logical] ⟨false, rel⟩ := by
+  unfold canonicalTargetL stripAny stripAny
+  simp only [if_true, hnot, Bool.false_eq_true, if_false]
+  rw [clean_append, stripPrefix_append]
+
+/-- … and when the physical spelling is a prefix, it is the physical spelling that is removed
+    (the kernel's answer comes first) -/
+theorem physical_spelling_first (phys logical rel : List Seg) :
+    canonicalTargetL [phys, logical] ⟨true, phys ++ rel⟩ =
+      canonicalTargetL [phys, logical] ⟨false, rel⟩ := by
+  unfold canonicalTargetL stripAny
+  simp only [if_true, Bool.false_eq_true, if_false]
+  rw [clean_append, stripPrefix_append]
+
 /-- the canonical target of a plain relative path is that path; of the project root it is `.` -/
 theorem canonical_of_plain (cwd t : List Seg) (h : Plain t) :
     canonicalTarget cwd ⟨false, t⟩ = (false, orDot t) := by
